@@ -29,6 +29,9 @@ type sendOp struct {
 	Mode    int64 `json:"mode"`
 	UID     int   `json:"uid"`
 	GID     int   `json:"gid"`
+	// Direct: through the cluster API's Send (all files of a request in one call, plain
+	// engine copies) instead of the RPC layer's chunked path
+	Direct bool `json:"direct,omitempty"`
 }
 
 type sendH struct{}
@@ -57,6 +60,10 @@ func (sendH) Generate(property string, seed uint64, tier string) *Case {
 		op := sendOp{Mode: []int64{0, 0o644, 0o755}[g.IntN(3)], UID: g.IntN(2) * 1000, GID: g.IntN(2) * 1000}
 		for k := 0; k < 1+g.IntN(2); k++ {
 			op.Sizes = append(op.Sizes, sizes[g.IntN(len(sizes))])
+		}
+		if g.IntN(3) == 0 {
+			op.Direct = true
+			op.Sizes = append(op.Sizes, sizes[g.IntN(4)])
 		}
 		for k := 0; k < 1+g.IntN(3); k++ {
 			t := g.IntN(4)
@@ -153,7 +160,35 @@ func (sendH) Execute(c *Case, res *Result) {
 			}
 			stream := &fakeSendStream{ctx: ctx}
 			done := make(chan error, 1)
-			go func() { done <- vib.Send(opts, stream) }()
+			if op.Direct {
+				// (no RPC reaches this entry point; it is driven with distinct targets, the
+				// de-duplication of a request's target list being the RPC path's business)
+				so := &coretypes.SendOptions{IDs: sortedKeys(want)}
+				var fnames []string
+				for n := range content {
+					fnames = append(fnames, n)
+				}
+				sort.Strings(fnames)
+				for _, n := range fnames {
+					so.Files = append(so.Files, coretypes.LinuxFile{Filename: n, Content: content[n], UID: op.UID, GID: op.GID, Mode: op.Mode})
+				}
+				res.Probes["sends_through_cluster_api"]++
+				go func() {
+					ch, err := w.core.cal.Send(ctx, so)
+					if err == nil {
+						for m := range ch {
+							pm := &pb.SendMessage{Id: m.ID, Path: m.Path}
+							if m.Error != nil {
+								pm.Error = m.Error.Error()
+							}
+							stream.msgs = append(stream.msgs, pm)
+						}
+					}
+					done <- err
+				}()
+			} else {
+				go func() { done <- vib.Send(opts, stream) }()
+			}
 			finished := false
 			t0 := time.Now()
 			for !finished && time.Since(t0) < 20*time.Minute {
@@ -247,6 +282,9 @@ func (sendH) Execute(c *Case, res *Result) {
 						cn, _ := w.engines[wl.Nodename].Get(id)
 						f, ok := cn.Files[name]
 						wantMode := op.Mode // "the requested owner and mode": nothing is defaulted on this path
+						if op.Direct && op.UID == 0 && op.GID == 0 && op.Mode == 0 {
+							wantMode = 0o755 // the cluster API's documented default when a request names neither owner nor mode
+						}
 						if !ok || !bytes.Equal(f.Content, content[name]) {
 							w.viol("C29", "content-differs", "copy", fmt.Sprintf("file %s on %s has %d bytes, sent %d; identical=%v", name, shortID(id), len(f.Content), len(content[name]), ok && bytes.Equal(f.Content, content[name])))
 						} else if f.UID != op.UID || f.GID != op.GID || f.Mode != wantMode {
